@@ -509,3 +509,281 @@ theorem class_definition_ok (A : App) (hwf : A.wf = true) (D : ClassDef) (hD : D
 
 end Schema
 end SpyneModel
+
+namespace SpyneModel
+namespace Schema
+open Xml
+
+/-! ### every entry of the generated lists is one of the components proved legal -/
+
+theorem enum_facets_legal (names : List Text) :
+    simpleDefOk { base := .string, facets := names.map Facet.enumeration } = true := by
+  unfold simpleDefOk
+  simp only [Bool.and_eq_true]
+  constructor
+  · rw [List.all_eq_true]; intro f hf
+    obtain ⟨v, _, e⟩ := List.mem_map.mp hf
+    subst e; rfl
+  · have hnone : ∀ g : Facet → Option Int, (∀ v, g (.enumeration v) = none) →
+        facetGet g (names.map Facet.enumeration) = none := by
+      intro g hg
+      unfold facetGet
+      rw [List.findSome?_eq_none_iff]
+      intro f hf
+      obtain ⟨v, _, e⟩ := List.mem_map.mp hf
+      subst e; exact hg v
+    unfold facetsConsistent
+    rw [hnone _ (fun _ => rfl), hnone _ (fun _ => rfl), hnone _ (fun _ => rfl), hnone _ (fun _ => rfl)]
+    have : (names.map Facet.enumeration).any Facet.isLength = false := by
+      rw [List.any_eq_false]; intro f hf; obtain ⟨v, _, e⟩ := List.mem_map.mp hf; subst e; simp [Facet.isLength]
+    simp [this, optLe, optLt]
+
+theorem prim_def_legal (F6 : Facts06) (p : PrimTy) (hw : primWf p = true)
+    (hq : (isEnum p || !primIsDefault p) = true) :
+    simpleDefOk { base := builtinOf p, facets := primFacets F6 p } = true := by
+  cases p with
+  | integer k r =>
+    have e : primFacets F6 (.integer k r) = intFacets r := by
+      show intFacets (writtenRange F6 k r) = intFacets r
+      rw [writtenRange_wf F6 k r hw]
+    rw [e]; exact hw
+  | unicode a b c d => exact string_facets_legal F6 a b c d hw
+  | enum names => exact enum_facets_legal names
+  | boolean => simp [isEnum, primIsDefault] at hq
+  | date => simp [isEnum, primIsDefault] at hq
+  | time => simp [isEnum, primIsDefault] at hq
+  | dateTime => simp [isEnum, primIsDefault] at hq
+  | duration => simp [isEnum, primIsDefault] at hq
+  | bytes e => simp [isEnum, primIsDefault] at hq
+
+theorem tyDefs_simple_ok (A : App) (cns cname k : Text) :
+    ∀ t : Ty, tyWf t = true → ∀ e ∈ (tyDefs A cns cname k t).simple, simpleDefOk e.2 = true
+  | .prim p o, hw, e, he => by
+    simp only [tyWf, Bool.and_eq_true] at hw
+    simp only [tyDefs] at he
+    split at he
+    · rename_i hq
+      simp only [List.mem_singleton] at he
+      subst he
+      exact prim_def_legal A.facts p hw.1 hq
+    · cases he
+  | .obj _ _ _ _ _, _, e, he => by simp [tyDefs] at he
+  | .arr m el o, hw, e, he => by
+    have hw' := hw
+    unfold tyWf at hw'
+    simp only [Bool.and_eq_true] at hw'
+    obtain ⟨⟨⟨_, _⟩, hwe⟩, _⟩ := hw'
+    simp only [tyDefs, Defs.append, List.mem_append] at he
+    rcases he with he | he
+    · exact tyDefs_simple_ok A cns cname k el hwe e he
+    · cases el with
+      | prim p o' =>
+        simp only at he
+        split at he
+        · rename_i hq
+          simp only [List.mem_singleton] at he
+          subst he
+          simp only [tyWf, Bool.and_eq_true] at hwe
+          simp only [Bool.and_eq_true, Bool.not_eq_true'] at hq
+          exact prim_def_legal A.facts p hwe.1 (by simp [hq.2])
+        · cases he
+      | obj _ _ _ _ _ => cases he
+      | arr _ _ _ => cases he
+
+theorem tyDefs_complex_wrappers (A : App) (cns cname k : Text) :
+    ∀ t : Ty, tyWf t = true → arrNsOk A cns cname k t = true →
+      ∀ e ∈ (tyDefs A cns cname k t).complex,
+        ∃ m el o, tyWf (.arr m el o) = true ∧ arrNsOk A cns cname k (.arr m el o) = true ∧
+          e = (itemKey A cns cname k (.arr m el o),
+               { base := none, particles := [{ name := memberLocal m, type := refOf A cns cname k el, occ := el.occ }] }) ∧
+          (∀ x ∈ (tyDefs A cns cname k (.arr m el o)).simple, x ∈ (tyDefs A cns cname k t).simple) ∧
+          (∀ x ∈ (tyDefs A cns cname k (.arr m el o)).complex, x ∈ (tyDefs A cns cname k t).complex) ∧
+          (∀ D ∈ nested (.arr m el o), D ∈ nested t)
+  | .prim p o, _, _, e, he => by
+    simp only [tyDefs] at he
+    split at he <;> cases he
+  | .obj _ _ _ _ _, _, _, e, he => by simp [tyDefs] at he
+  | .arr m el o, hw, ha, e, he => by
+    have hw' := hw
+    unfold tyWf at hw'
+    simp only [Bool.and_eq_true] at hw'
+    obtain ⟨⟨⟨_, _⟩, hwe⟩, _⟩ := hw'
+    have ha' := ha
+    simp only [arrNsOk, Bool.and_eq_true] at ha'
+    simp only [tyDefs, Defs.append, List.mem_append, List.mem_singleton] at he
+    rcases he with he | he
+    · obtain ⟨m', el', o', h1, h2, h3, h4, h5, h6⟩ := tyDefs_complex_wrappers A cns cname k el hwe ha'.2 e he
+      refine ⟨m', el', o', h1, h2, h3, ?_, ?_, ?_⟩
+      · intro x hx; simp only [tyDefs, Defs.append, List.mem_append]; exact Or.inl (h4 x hx)
+      · intro x hx; simp only [tyDefs, Defs.append, List.mem_append]; exact Or.inl (h5 x hx)
+      · intro D hD; simp only [nested]; exact h6 D hD
+    · exact ⟨m, el, o, hw, ha, he, fun x hx => hx, fun x hx => hx, fun D hD => hD⟩
+
+theorem ref_defined (A : App) (cns cname k : Text) (t : Ty) (key : Key)
+    (hpos : posOk A (gen A) cns cname k t = true) (hr : refOf A cns cname k t = .named key) :
+    ((gen A).hasSimple key || (gen A).hasComplex key) = true := by
+  cases t with
+  | prim p o =>
+    simp only [posOk] at hpos
+    by_cases hq : (isEnum p || !primIsDefault p) = true
+    · rw [if_pos hq] at hpos
+      have hrr : refOf A cns cname k (.prim p o) = .named (itemKey A cns cname k (.prim p o)) := by
+        have : (!isEnum p && primIsDefault p) = false := by
+          cases h1 : isEnum p <;> cases h2 : primIsDefault p <;> simp_all
+        simp [refOf, this]
+      rw [hrr] at hr
+      injection hr with hr
+      subst hr
+      simp [Schema.hasSimple, beq_iff_eq.mp hpos]
+    · have hrr : refOf A cns cname k (.prim p o) = .builtin (builtinOf p) := by
+        have : (!isEnum p && primIsDefault p) = true := by
+          cases h1 : isEnum p <;> cases h2 : primIsDefault p <;> simp_all
+        simp [refOf, this]
+      rw [hrr] at hr; cases hr
+  | obj cn ons b fields o =>
+    simp only [posOk, Bool.and_eq_true, beq_iff_eq] at hpos
+    have hrr : refOf A cns cname k (.obj cn ons b fields o) = .named (ons, cn) := rfl
+    rw [hrr] at hr
+    injection hr with hr
+    subst hr
+    simp [Schema.hasComplex, hpos.2]
+  | arr m e o =>
+    simp only [posOk, Bool.and_eq_true, beq_iff_eq] at hpos
+    have hrr : refOf A cns cname k (.arr m e o) = .named (itemKey A cns cname k (.arr m e o)) := rfl
+    rw [hrr] at hr
+    injection hr with hr
+    subst hr
+    simp [Schema.hasComplex, hpos.1.2]
+
+/-- the wrapper complexType of an `Array` member passes libxml2's checks -/
+theorem wrapper_ok (A : App) (hN : NoClash A) (cns cname k m : Text) (el : Ty) (o : Occ)
+    (hw : tyWf (.arr m el o) = true) (ha : arrNsOk A cns cname k (.arr m el o) = true)
+    (hs : ∀ x ∈ (tyDefs A cns cname k (.arr m el o)).simple, x ∈ rawSimple A)
+    (hc : ∀ x ∈ (tyDefs A cns cname k (.arr m el o)).complex, x ∈ rawComplex A)
+    (hn : ∀ D ∈ nested (.arr m el o), D ∈ A.allClasses) :
+    complexDefOk (gen A) (itemKey A cns cname k (.arr m el o),
+      { base := none, particles := [{ name := memberLocal m, type := refOf A cns cname k el, occ := el.occ }] }) = true := by
+  have hm : (itemKey A cns cname k (.arr m el o), ({ base := none, particles := [{ name := memberLocal m, type := refOf A cns cname k el, occ := el.occ }] } : ComplexDef)) ∈ rawComplex A := by
+    apply hc; simp [tyDefs, Defs.append]
+  have hl := (complex_lookup A hN _ _ hm).1
+  have hbnd : (gen A).chainBound = A.iface.classes.length + 1 := rfl
+  have hpos := posOk_of_noClash A hN cns cname k el
+    (fun x hx => hs x (by simp only [tyDefs, Defs.append, List.mem_append]; exact Or.inl hx))
+    (fun x hx => hc x (by simp only [tyDefs, Defs.append, List.mem_append]; exact Or.inl hx))
+    (fun D hD => hn D (by simpa [nested] using hD))
+  have hw' := hw
+  unfold tyWf at hw'
+  simp only [Bool.and_eq_true, decide_eq_true_eq] at hw'
+  obtain ⟨⟨⟨⟨_, hmin⟩, _⟩, _⟩, _⟩ := hw'
+  simp only [arrNsOk, Bool.and_eq_true] at ha
+  unfold complexDefOk
+  simp only [Bool.and_eq_true]
+  refine ⟨⟨⟨trivial, ?_⟩, ?_⟩, ?_⟩
+  · rw [hbnd]; simp only [chainEnds, hl]
+  · simp only [List.all_cons, List.all_nil, Bool.and_true, Bool.and_eq_true]
+    constructor
+    · cases hr : refOf A cns cname k el with
+      | builtin b => rfl
+      | named rk =>
+        simp only [Schema.refOk, Bool.and_eq_true]
+        refine ⟨?_, ref_defined A cns cname k el rk hpos hr⟩
+        have := ha.1
+        rw [hr] at this
+        simp only [refNs, decide_eq_true_eq] at this
+        simp [Schema.visible, this]
+    · rw [hmin]; cases el.occ.maxOccurs <;> simp
+  · rw [hbnd]
+    simp only [effParticles, hl, List.nil_append, List.map_cons, List.map_nil, namesDistinct, List.any_nil, Bool.not_false,
+      Bool.and_self]
+
+theorem nodupKeys_map_self {α} (l : List (Key × α)) (h : nodupKeys l = true) :
+    nodupKeys (l.map (fun e => (e.1, e.1))) = true := by
+  induction l with
+  | nil => rfl
+  | cons e r ih =>
+    obtain ⟨k, v⟩ := e
+    simp only [nodupKeys, Bool.and_eq_true, Bool.not_eq_true', List.any_eq_false, beq_iff_eq, List.map_cons] at h ⊢
+    refine ⟨?_, ih h.2⟩
+    intro x hx
+    obtain ⟨y, hy, e⟩ := List.mem_map.mp hx
+    subst e
+    exact h.1 y hy
+
+theorem lookup_isSome_of_mem {α} (l : List (Key × α)) (e : Key × α) (h : e ∈ l) : (l.lookup e.1).isSome = true := by
+  induction l with
+  | nil => cases h
+  | cons a r ih =>
+    obtain ⟨k, v⟩ := a
+    simp only [List.lookup]
+    cases hk : e.1 == k with
+    | true => rfl
+    | false =>
+      rcases List.mem_cons.mp h with e' | e'
+      · subst e'; simp at hk
+      · exact ih e'
+
+/-- **gen_compiles.** The schema generated for a well-formed application passes every check libxml2
+    applies to this subset of XSD. -/
+theorem gen_compiles (A : App) (hwf : A.wf = true) : (gen A).compiles = true := by
+  have hc := closed_of_wf A hwf
+  have hwf' := hwf
+  unfold App.wf at hwf'
+  simp only [Bool.and_eq_true] at hwf'
+  have hN := noClash_unfold A hwf'.2
+  have hb := hwf'.1
+  unfold App.wfBase at hb
+  rw [List.all_eq_true] at hb
+  have hfields : ∀ D ∈ A.allClasses, ∀ f ∈ ownFields A.iface D, tyWf f.2 = true ∧ arrNsOk A D.ns D.name f.1 f.2 = true := by
+    intro D hD f hf
+    have := hb D hD
+    simp only [Bool.and_eq_true, List.all_eq_true] at this
+    exact ⟨tyWf_of_mem D.fields this.1.2 f (ownFields_sub _ _ f hf), this.2 f hf⟩
+  have hsimple : (gen A).simple = dedupKeys (rawSimple A) := rfl
+  have hcomplex : (gen A).complex = dedupKeys (rawComplex A) := rfl
+  have helems : (gen A).elements = (gen A).complex.map (fun e => (e.1, e.1)) := rfl
+  unfold Schema.compiles
+  simp only [Bool.and_eq_true]
+  refine ⟨⟨⟨⟨⟨⟨?_, ?_⟩, ?_⟩, ?_⟩, ?_⟩, ?_⟩, ?_⟩
+  · rw [hsimple]; exact nodupKeys_dedupAux [] _
+  · rw [hcomplex]; exact nodupKeys_dedupAux [] _
+  · rw [helems]; exact nodupKeys_map_self _ (by rw [hcomplex]; exact nodupKeys_dedupAux [] _)
+  · rw [List.all_eq_true]
+    intro e he
+    have hraw : e ∈ rawSimple A := dedupAux_sub [] _ e (by rw [hsimple] at he; exact he)
+    have := hN.disj e hraw
+    simp only [Schema.hasComplex, hcomplex, lookup_dedupKeys, this, Option.isSome_none, Bool.not_false]
+  · rw [List.all_eq_true]
+    intro e he
+    have hraw : e ∈ rawSimple A := dedupAux_sub [] _ e (by rw [hsimple] at he; exact he)
+    unfold rawSimple at hraw
+    obtain ⟨D, hD, hd⟩ := List.mem_flatMap.mp hraw
+    simp only [classDefs] at hd
+    obtain ⟨ds, hds, hed⟩ := List.mem_flatMap.mp hd
+    obtain ⟨f, hf, rfl⟩ := List.mem_map.mp hds
+    exact tyDefs_simple_ok A D.ns D.name f.1 f.2 (hfields D hD f hf).1 e hed
+  · rw [List.all_eq_true]
+    intro e he
+    have hraw : e ∈ rawComplex A := dedupAux_sub [] _ e (by rw [hcomplex] at he; exact he)
+    unfold rawComplex at hraw
+    obtain ⟨D, hD, hd⟩ := List.mem_flatMap.mp hraw
+    simp only [classDefs, List.mem_append, List.mem_singleton] at hd
+    rcases hd with hd | hd
+    · obtain ⟨ds, hds, hed⟩ := List.mem_flatMap.mp hd
+      obtain ⟨f, hf, rfl⟩ := List.mem_map.mp hds
+      have hsub := field_defs_sub A D hD f hf
+      obtain ⟨m, el, o, h1, h2, h3, h4, h5, h6⟩ :=
+        tyDefs_complex_wrappers A D.ns D.name f.1 f.2 (hfields D hD f hf).1 (hfields D hD f hf).2 e hed
+      rw [h3]
+      exact wrapper_ok A hN D.ns D.name f.1 m el o h1 h2 (fun x hx => hsub.1 x (h4 x hx)) (fun x hx => hsub.2 x (h5 x hx))
+        (fun D2 hD2 => allClasses_closed A D hD D2
+          (nested_sub_nestedFields D.fields f.1 f.2 (ownFields_sub _ _ f hf) D2 (h6 D2 hD2)))
+    · rw [hd]
+      exact (class_definition_ok A hwf D hD).1
+  · rw [List.all_eq_true]
+    intro e he
+    rw [helems] at he
+    obtain ⟨y, hy, rfl⟩ := List.mem_map.mp he
+    simp only [Schema.hasComplex, lookup_isSome_of_mem _ y hy, Bool.true_or]
+
+end Schema
+end SpyneModel
